@@ -577,6 +577,8 @@ def m_option(ex, st, fr, path, args, m):
                 return some(iv)
             raise Unsupported("as_deref of " + repr(iv))
         return some(inner)
+    if isinstance(o, Ref) and op in ("is_some", "is_none", "copied", "cloned"):
+        o = deref_val(o)
     if not (isinstance(o, Agg) and o.name == "Option"):
         raise Unsupported(f"Option::{op} on {o!r}")
     if op in ("unwrap", "expect", "unwrap_unchecked"):
@@ -607,6 +609,8 @@ def m_result(ex, st, fr, path, args, m):
         ov = deref_val(r)
         inner = Ref(r.cell, r.path + (("d", ov.variant), ("f", 0)))
         return Agg("enum", [inner], name="Result", variant=ov.variant)
+    if isinstance(o, Ref) and op in ("is_ok", "is_err"):
+        o = deref_val(o)
     if not (isinstance(o, Agg) and o.name == "Result"):
         raise Unsupported(f"Result::{op} on {o!r}")
     if op in ("unwrap", "expect"):
@@ -657,6 +661,12 @@ def m_vec_new(ex, st, fr, path, args, m):
         c = args[0]
         cap = c.v if c.concrete else None      # capacity is only a hint unless a kernel reads it back
     return VecObj([], m.group(1), cap)
+
+
+@model(r"^(?:std::vec::|alloc::vec::)?from_elem::<(.*)>$")
+def m_vec_from_elem(ex, st, fr, path, args, m):
+    n = ex.concretize(st, args[1], bound=64, what="vec![x; n] length")
+    return VecObj([deep_clone(args[0]) for _ in range(n)], m.group(1), n)
 
 
 @model(r"^(?:std::string::|alloc::string::)?String::(new|with_capacity)$")
